@@ -40,8 +40,8 @@ Inductive derivation := DNone | DMul (a b : ustring) | DDiv (a b : ustring) | DB
 Definition parse_qargs (ts : list tok) : derivation :=
   match ts with
   | [] => DNone
-  | [TIdent a; TPunct 42%N; TIdent b] => DMul a b
-  | [TIdent a; TPunct 47%N; TIdent b] => DDiv a b
+  | [TIdent a; TPunct c; TIdent b] =>
+      if (c =? 42)%N then DMul a b else if (c =? 47)%N then DDiv a b else DBad
   | _ => DBad
   end.
 
